@@ -78,7 +78,30 @@ CLAIM = {
             'objects. R14 (257 / 258 / 300 users on one root, receive antennas, cover-code slots, channel taps, LS '
             'realizations / antennas / pilots; 65537 kept taps and antennas) by correspondence and oracle, the '
             'theorems having no size bound. A library exception inside a correspondence is a broken tie followed by '
-            'the failing-input search (exit 1), never exit 2.',
+            'the failing-input search (exit 1), never exit 2. Third robustness round: R15 (distinct values that are '
+            'merely close — one estimator object asked about observations that differ by 2^-20 relative / one unit in '
+            'the last place / the 13th decimal / 1e-9 absolute, magnitudes 1e-9, 4e-12, 4e-13, 1e-15 and 2.4e9 vs '
+            '2.4e9+2e4 one after the other, adjacent K; channels with taps 2^-30 below the main tap, pairs of channels '
+            'that differ by 2^-20 in one tap; pilot matrices whose Gram matrix is a multiple of the identity up to '
+            '2^-20 / 2^-32, nearly parallel pilot rows with a tolerance of 64 eps cond(S S^H) as the margin of the '
+            'near-tie, channel and pilot matrices that differ by 2^-20; raw reference arrays of norm 1 or 1 + 2^-20 that '
+            'are not flagged normalised; cover codes 2^-20 or one ulp away from +-1): theorems prime_lookup_exact, '
+            'prime_lookup_at_prime (the only value lookup of the model), cazac_estimate_separates, ls_separates '
+            '(channels that differ by any amount get different estimates) + correspondence + oracle (bitwise equal '
+            'to a fresh object on a copy, first-principles DFT sums / true response / H to 1e-11 / 1e-12 relative); '
+            'the code has no setter, cache or value-keyed lookup besides the prime table, so the rest of R15 is '
+            'checked as "every value gets its own result". R16 (argument identity and buffer reuse — one '
+            'preallocated array refilled in place between 2-4 calls, equal-content arrays that are other objects, '
+            'the argument overwritten right after the call, the same array object in two roles, for both '
+            'estimators in every layout, the raw-array reference, compute_ls_estimation 2-D / 3-D, get_extended_ZF, '
+            'get_shifted_root_seq / get_srs_seq / get_dmrs_seq, the + * [] helpers, DmrsUeSequence(cover_code), '
+            'CazacBasedChannelEstimator(<ndarray>)): theorems buffer_history_eq_fresh_calls, '
+            'buffer_earlier_results_kept, buffer_equal_content_refill on the state machine Cazac.BufState (the '
+            'callee sees the contents at call time), estimate_same_array_two_roles, ls_same_array + correspondence '
+            '(driver op buf runs BufState.run with the single-call model as callee; the code is called with one '
+            'refilled numpy array) + oracle. Known finding of R16: CazacBasedChannelEstimator(<ndarray>) keeps the '
+            'caller\'s array object, so estimators built from one refilled reference buffer all follow the buffer '
+            '(findings/C18.json).',
 }
 
 EPS = 2.0 ** -52
@@ -591,6 +614,13 @@ def _robust2():
     return c18_robust2
 
 
+def _robust3():
+    from harness.props import c18_robust3
+    for k_, v_ in c18_robust3.ORACLES.items():
+        ORACLES.setdefault(k_, v_)
+    return c18_robust3
+
+
 def guarded(ctx, name, fn, *args):
     """an exception raised by the LIBRARY (or by the comparison code on what the library returned) inside a
     correspondence is a broken tie (-> failing-input search -> exit 1), never an infrastructure error"""
@@ -609,6 +639,7 @@ def guarded(ctx, name, fn, *args):
 def run_oracle(ctx, call, case, key=None, nontrivial=True):
     _robust()
     _robust2()
+    _robust3()
     ctx.count((call, key if key is not None else repr(case)), nontrivial)
     try:
         r = ORACLES[call](case)
@@ -627,6 +658,7 @@ def run_oracle(ctx, call, case, key=None, nontrivial=True):
 def replay(ctx, rep):
     _robust()
     _robust2()
+    _robust3()
     try:
         r = ORACLES[rep['call']](rep['case'])
     except Exception:
@@ -1067,7 +1099,9 @@ def check(ctx):
                 'sequences: all table rows, seeded (root, size, Nzc) incl. rejected arguments; estimators: seeded '
                 'user sequences (SRS/DMRS, shifts, cover codes, normalisation) x random observations (1-4 antennas, '
                 '1-D/2-D/3-D layouts) for the correspondence, and first-principles noise-free multi-user scenarios '
-                'with Gaussian-integer taps for the oracles; LS: Gaussian-integer pilots of full row rank. '
+                'with Gaussian-integer taps for the oracles; LS: Gaussian-integer pilots of full row rank; R15/R16: '
+                'deterministic scenario sets (every estimator kind x every kind of closeness; every entry point with an '
+                'array argument x refilled buffer) plus seeded ones. '
                 'non-trivial = distinct (call, input) with size >= 2 / sequence length > 24 / at least one tap')
     core.prove(ctx, MODULE, generated=['PrimeTable', 'C18RootTables'], drivers=[DRIVER], scratch=ctx.scratch)
     ctx.required_branches = ['lookup:size>=1013', 'root:table', 'root:zc-extended', 'root:zc-plain',
@@ -1076,7 +1110,8 @@ def check(ctx):
                              'ue:cover', 'ue:normalized', 'est:est:1d', 'est:est:2d', 'est:occ:2d', 'est:occ:3d',
                              'est:normalized', 'ls:2d', 'ls:3d-shared', 'ls:3d-own', 'contract:np.fft', 'contract:np.linalg.norm',
                              'oracle-est:occ', 'oracle-est:comb', 'oracle-est:plain', 'oracle-est:multi-user',
-                             'oracle-est:multi-antenna', 'oracle-est:normalized'] + _robust().REQUIRED + _robust2().REQUIRED
+                             'oracle-est:multi-antenna', 'oracle-est:normalized'] + _robust().REQUIRED + _robust2().REQUIRED \
+        + _robust3().REQUIRED
     try:
         drv = core.Driver(DRIVER)
         guarded(ctx, 'prime_lookup', corr_lookup, ctx, drv, 1300)
@@ -1089,6 +1124,7 @@ def check(ctx):
         guarded(ctx, 'compute_ls_estimation', corr_ls, ctx, drv, 60 if quick else 1500)
         guarded(ctx, 'robustness R1-R7', _robust().correspondence, ctx, drv, quick)
         guarded(ctx, 'robustness R8-R14', _robust2().correspondence, ctx, drv, quick)
+        guarded(ctx, 'robustness R15-R16', _robust3().correspondence, ctx, drv, quick)
     except core.Infra as e:
         if not ctx.broken:
             raise
@@ -1099,6 +1135,7 @@ def check(ctx):
     oracle_runs(ctx, quick)
     _robust().oracle_runs(ctx, quick)
     _robust2().oracle_runs(ctx, quick)
+    _robust3().oracle_runs(ctx, quick)
     ctx.sample({'call': 'prime_lookup', 'size': 1200, 'model': 'last of smallPrimeList.filter (<= size)'})
     ctx.sample({'call': 'RootSequence.seq_array', 'u': 25, 'size': 150,
                 'check': '|a|=1, R[tau]=0 for tau != 0, |DFT|^2 = N, seq[i] = seq[i mod Nzc]'})
@@ -1131,3 +1168,4 @@ def search(ctx):
         run_oracle(ctx, 'compute_ls_estimation', gen_ls_case(rng))
     _robust().search(ctx)
     _robust2().search(ctx)
+    _robust3().search(ctx)
